@@ -718,7 +718,7 @@ def main(ctx):
             ctx.sample({"generated": x[:300]})
     # every violating program the shards kept is examined: fast attribution by repair first; only what no known
     # finding's patch repairs is shrunk and reported (the number of shrinks is capped, the verdict is not)
-    unattributed, nknown_search = 0, 0
+    unattributed, nknown_search, tried_search = 0, 0, 0
     for s in sums:
         for v in (s["violations"] or []):
             hit = attribute(v["src"])
@@ -726,9 +726,13 @@ def main(ctx):
                 nknown_search += 1
                 ctx.violation(hit, "%s (search/%s): %s" % (v["kind"], v["class"], v["src"][:120].replace("\n", " ")), {})
                 continue
-            unattributed += 1
-            if unattributed <= 8:
-                report(v["src"], v["kind"], v["detail"], "search/" + v["class"])
+            # not repaired by any single known patch as it stands (possibly two known defects in one program):
+            # minimise, then decide
+            tried_search += 1
+            if tried_search <= 8 and report(v["src"], v["kind"], v["detail"], "search/" + v["class"]) == "known":
+                nknown_search += 1
+            else:
+                unattributed += 1
     ctx.stats["search_violations"] = {"attributed_to_known": nknown_search, "unattributed": unattributed,
                                       "dropped_by_shard_cap": sum(x.get("violations_dropped", 0) for x in sums)}
     ctx.obligation("search:no-unknown-violation(%d programs)" % agg["programs"], "correspondence",
@@ -764,7 +768,7 @@ def main(ctx):
         ctx.obligation("corr:verifier-saw-every-unit", "correspondence", nunits == written and not werrs,
                        "verified %d of %d units written; write errors: %s" % (nunits, written, werrs))
         srcs_cache = {}
-        seen_prog, rej_known, rej_unattr = set(), 0, 0
+        seen_prog, rej_known, rej_unattr, tried_rej = set(), 0, 0, 0
         for pfx, pid, a in rejects:
             if (pfx, pid) in seen_prog:
                 continue
@@ -786,9 +790,11 @@ def main(ctx):
                 rej_known += 1
                 ctx.violation(hit, "verify-reject (corr2): %s" % src[:120].replace("\n", " "), {})
                 continue
-            rej_unattr += 1
-            if rej_unattr <= 8:
-                report(src, "verify-reject", a, "corr2")
+            tried_rej += 1
+            if tried_rej <= 8 and report(src, "verify-reject", a, "corr2") == "known":
+                rej_known += 1
+            else:
+                rej_unattr += 1
         ctx.stats["corr2"].update({"rejected_programs": len(seen_prog), "attributed_to_known": rej_known, "unattributed": rej_unattr})
         ctx.obligation("corr:verifier-accepts-all-compiled-units(%d units)" % nunits, "correspondence",
                        not unknown_instr and rej_unattr == 0,
